@@ -37,6 +37,14 @@ def resolve_node_call(fn, expr, depth=0):
     return None
 
 
+def _through_arrow(o):
+    """the smart pointer behind `p->member` (operator-> call)"""
+    s = o.strip_all()
+    if s.k == 'CXXOperatorCallExpr' and s.op == '->' and len(s.c) >= 2:
+        return s.c[1]
+    return o
+
+
 def check_site(rep, prog, fn, site, args, kind):
     """site: emplace_back / constructor creating a candidate; args: its argument nodes"""
     cfg = fn.cfg
@@ -61,12 +69,44 @@ def check_site(rep, prog, fn, site, args, kind):
             if a.k == 'CXXMemberCallExpr' and a.callee and a.callee['name'] == 'pred':
                 tree_sets.add(ex.var_of(n.object_arg()))
 
+    # ... or a set returned by a helper that fills it that way
+    for n in fn.walk():
+        if n.k == 'VarDecl' and n.c:
+            d0 = n.c[0].strip_all()
+            if d0.k in ('CXXMemberCallExpr', 'CallExpr') and d0.callee and d0.callee.get('in_repo') and d0.callee_id is not None:
+                hf = prog.fn_of_fref(d0.callee_id)
+                if hf is not None and hf.body is not None:
+                    filled = set()
+                    for x in hf.walk():
+                        if x.k == 'CXXMemberCallExpr' and x.callee and x.callee['name'] == 'insert' and x.args():
+                            a = x.args()[0].strip_all()
+                            if a.k == 'CXXMemberCallExpr' and a.callee and a.callee['name'] == 'pred':
+                                filled.add(ex.var_of(x.object_arg()))
+                    rets = ex.returns_of(hf)
+                    if rets and all(r.c and ex.var_of(r.c[0]) in filled for r in rets):
+                        tree_sets.add(n.decl_id)
+
     def atomize(leaf):
         s = leaf.strip_all()
         m = ex.membership(leaf)
         if m is not None and ex.var_of(m[0]) in tree_sets and ex.key(m[1]) == evar:
             f = ex.f_atom('tree_edge')
             return f if m[2] else ex.f_not(f)
+        # the local form of the tree-edge test: e is the predecessor edge of one of its endpoints
+        if s.k in ('BinaryOperator', 'CXXOperatorCallExpr') and s.op in ('==', '!='):
+            ops_ = s.c if s.k == 'BinaryOperator' else s.c[1:]
+            if len(ops_) == 2:
+                for a_, b_ in ((ops_[0], ops_[1]), (ops_[1], ops_[0])):
+                    b2 = b_.strip_all()
+                    if ex.key(ex.subst(a_)) == evar and b2.k == 'CXXMemberCallExpr' and b2.callee and b2.callee['name'] == 'pred' and b2.object_arg() is not None:
+                        r = resolve_node_call(fn, ex.subst(_through_arrow(b2.object_arg())))
+                        if r and r[2] == evar:
+                            f = ex.f_atom('pred_is_e_' + r[1])
+                            return f if s.op == '==' else ex.f_not(f)
+        if s.k == 'CXXMemberCallExpr' and s.callee and s.callee['name'] == 'has_pred' and s.object_arg() is not None:
+            r = resolve_node_call(fn, ex.subst(_through_arrow(s.object_arg())))
+            if r and r[2] == evar:
+                return ex.f_atom('has_pred_' + r[1])
         nt = ex.null_test(leaf)
         if nt is not None:
             r = resolve_node_call(fn, nt[0])
@@ -86,8 +126,22 @@ def check_site(rep, prog, fn, site, args, kind):
     need = ['tree_edge', 'null_source', 'null_target', 'same_first'] if kind == 'fresh' else ['null_source', 'null_target']
     missing = []
     import itertools
-    others = [a for a in atoms if a not in need]
+    others = [a for a in atoms if a not in need and not (isinstance(a, str) and a.startswith(('pred_is_e_', 'has_pred_')))]
     for bad in need:
+        if bad == 'tree_edge' and bad not in atoms and 'pred_is_e_source' in atoms and 'pred_is_e_target' in atoms:
+            # e is a tree edge iff it is the predecessor edge of its source or of its target (a predecessor edge is incident to its vertex)
+            reach = False
+            for end in ('source', 'target'):
+                rest = [a for a in atoms if a not in ('pred_is_e_' + end, 'has_pred_' + end)]
+                for vals in itertools.product((False, True), repeat=len(rest)):
+                    e = dict(zip(rest, vals))
+                    e['pred_is_e_' + end] = True
+                    e['has_pred_' + end] = True
+                    if ex.f_eval(pc, e):
+                        reach = True
+            if reach:
+                missing.append(bad)
+            continue
         if bad not in atoms:
             missing.append(bad)
             continue
